@@ -152,12 +152,26 @@ func canReachWithout(from, to, avoid *ssa.BasicBlock) bool {
 func ruleSPLIT1(w *World) []Ob {
 	p := w.D()
 	l := &obs{rule: "SPLIT-1", cfg: "D"}
+	// the splitter loop: the function that scans lines and asks isRootBlockBeginning
 	var fn *ssa.Function
-	if sp := p.Func("gtree.split"); sp != nil && len(sp.AnonFuncs) > 0 {
-		fn = sp.AnonFuncs[0]
+	for _, f := range libFuncs(p) {
+		hasScan, hasRootTest := false, false
+		allInstrs(f, func(in ssa.Instruction) {
+			if c, ok := in.(*ssa.Call); ok {
+				if calleeFullName(c.Common()) == "(*bufio.Scanner).Scan" {
+					hasScan = true
+				}
+				if c.Common().StaticCallee() != nil && c.Common().StaticCallee().Name() == "isRootBlockBeginning" {
+					hasRootTest = true
+				}
+			}
+		})
+		if hasScan && hasRootTest {
+			fn = f
+		}
 	}
 	if fn == nil {
-		l.undecided("gtree.split", "splitter", "-", "split or its goroutine closure not found", "split")
+		l.undecided("gtree.split", "splitter", "-", "no function that scans lines and tests isRootBlockBeginning was found", "split")
 		return l.list
 	}
 	fid := p.FuncID(fn)
@@ -250,7 +264,25 @@ func ruleSPLIT1(w *World) []Ob {
 		if !ok || b.Op != token.ADD {
 			return
 		}
+		appendsLine := false
 		if c, ok := b.Y.(*ssa.Call); ok && (calleeFullName(c.Common()) == "fmt.Sprintln" || calleeFullName(c.Common()) == "fmt.Sprintf") {
+			appendsLine = true
+		}
+		if s, ok := constString(b.Y); ok && s == "\n" {
+			// (block + line) + "\n"
+			if inner, ok := b.X.(*ssa.BinOp); ok && inner.Op == token.ADD {
+				if tc, ok := inner.Y.(*ssa.Call); ok && calleeFullName(tc.Common()) == "(*bufio.Scanner).Text" {
+					appendsLine = true
+				}
+			}
+		}
+		if inner, ok := b.Y.(*ssa.BinOp); ok && inner.Op == token.ADD {
+			// block + (line + "\n")
+			if s, ok := constString(inner.Y); ok && s == "\n" {
+				appendsLine = true
+			}
+		}
+		if appendsLine {
 			if scan.Block().Dominates(b.Block()) {
 				onlyPoll := true
 				for _, g := range guardsOf(b.Block()) {
